@@ -19,6 +19,7 @@ import (
 	"github.com/IrineSistiana/mosproxy/internal/dnsutils"
 	"github.com/IrineSistiana/mosproxy/internal/netlist"
 	"github.com/IrineSistiana/mosproxy/internal/pool"
+	"github.com/IrineSistiana/mosproxy/internal/verifhook"
 	"github.com/klauspost/compress/s2"
 	"github.com/prometheus/client_golang/prometheus"
 	"github.com/rs/zerolog"
@@ -96,6 +97,9 @@ func (c *prefetchCtl) reserve(key uint64) bool {
 	c.m.Lock()
 	defer c.m.Unlock()
 	_, dup := c.queue[key]
+	if verifhook.On {
+		verifhook.Ev("pf.reserve", c, key, !dup)
+	}
 	if dup {
 		return false
 	}
@@ -107,6 +111,9 @@ func (c *prefetchCtl) done(key uint64) {
 	c.m.Lock()
 	defer c.m.Unlock()
 	delete(c.queue, key)
+	if verifhook.On {
+		verifhook.Ev("pf.done", c, key)
+	}
 }
 
 // return true if only <= 25% ttl remaining.
@@ -205,9 +212,15 @@ func (c *cacheCtl) Store(q *dnsmsg.Question, clientAddr netip.Addr, resp *dnsmsg
 	defer pool.ReleaseBuf(k)
 	negativeResp := resp.RCode != dnsmsg.RCodeSuccess
 
+	if verifhook.On {
+		verifhook.Ev("cache.store", c, []byte(k), storedTime, expireTime, negativeResp, q, mark, resp)
+	}
 	// store in memory
 	if c.memory != nil {
 		c.memory.Store(k, storedTime, expireTime, v, negativeResp)
+	}
+	if verifhook.On {
+		verifhook.Ev("cache.stored", c, []byte(k), storedTime)
 	}
 
 	// store in redis
@@ -233,6 +246,9 @@ func (c *cacheCtl) Get(ctx context.Context, q *dnsmsg.Question, rc *RequestConte
 	if c.memory != nil {
 		var v pool.Buffer
 		v, storedTime, expireTime = c.memory.Get(key)
+		if verifhook.On {
+			verifhook.Ev("cache.get", c, []byte(key), v != nil, storedTime, expireTime, q, ipMark, rc)
+		}
 		if v != nil {
 			m, err := unpackCacheMsg(v)
 			pool.ReleaseBuf(v)
